@@ -85,7 +85,7 @@ LEMMAS = {
     forall p, ~ p == 0 -> thr_w (Some p) None = Ok (Some (log2x (prob_to_bayes_factor p))).
   Proof.
     intros p H. unfold threshold_args_to_match_weight, prob_to_match_weight. cbn. change (inject_Z 0) with 0.
-    rewrite (qeqb_false _ _ H). reflexivity.
+    rewrite ?(qeqb_false _ _ H). reflexivity.
   Qed."""),
     "misc_threshold_none_and_both": (
         "no threshold -> no filter; both thresholds -> ValueError",
